@@ -20,6 +20,7 @@ package main
 // trace the Lean model computes from the same read results and transport verdicts.
 
 import (
+	"errors"
 	"bytes"
 	"fmt"
 	"io"
@@ -46,13 +47,15 @@ type c04Job struct {
 	natural bool   // also cut where the client transport itself flushed
 	delayUs int    // pacing between segments (pipe mode)
 	seed    uint64 // application data generator
+	hsMin   int    // obfs4: wanted range of the handshake length (0 = any)
+	hsMax   int
 	world   int    // filled by the worker (for the replay line)
 	script  string // replay only: exact event script (script mode)
 }
 
 func (j c04Job) replay(seed int64) string {
-	s := fmt.Sprintf("c04|seed=%d|world=%d|client=%d|mode=%s|early=%d|later=%s|cuts=%s|natural=%s|delay=%d|dseed=%d",
-		seed, j.world, j.client, j.mode, j.early, c34IntsString(j.later), c34IntsString(j.cuts), vlib.B(j.natural), j.delayUs, j.seed)
+	s := fmt.Sprintf("c04|seed=%d|world=%d|client=%d|mode=%s|early=%d|later=%s|cuts=%s|natural=%s|delay=%d|dseed=%d|hsmin=%d|hsmax=%d",
+		seed, j.world, j.client, j.mode, j.early, c34IntsString(j.later), c34IntsString(j.cuts), vlib.B(j.natural), j.delayUs, j.seed, j.hsMin, j.hsMax)
 	if j.script != "" {
 		s += "|script=" + j.script
 	}
@@ -82,7 +85,13 @@ type c04SegConn struct {
 	natural bool
 	delay   time.Duration
 	flight  int // length of the flight inside buf (set by the caller before flush)
+	// obfs4: the client draws its handshake padding from crypto/rand; a handshake whose length is
+	// outside [hsMin, hsMax] is refused locally (nothing is sent) so that the caller can draw again
+	hsMin, hsMax int
+	hsLen        int
 }
+
+var errC04HsLen = errors.New("verif: handshake length outside the wanted range")
 
 func c04Resolve(cuts []int, flightLen, total int, extra []int) []int {
 	seen := map[int]bool{}
@@ -127,13 +136,26 @@ func (s *c04SegConn) Write(p []byte) (int, error) {
 		return len(p), nil
 	}
 	if s.first {
+		if (s.hsMin > 0 && len(p) < s.hsMin) || (s.hsMax > 0 && len(p) > s.hsMax) {
+			return 0, errC04HsLen
+		}
 		s.first = false
+		s.hsLen = len(p)
 		if err := s.emit(p, len(p), nil); err != nil {
 			return 0, err
 		}
 		return len(p), nil
 	}
 	return s.Conn.Write(p)
+}
+
+// Close: the obfs4 dialer closes the connection when its handshake write fails; while the harness is
+// still drawing a handshake of the wanted length nothing has been sent and the pipe must stay open.
+func (s *c04SegConn) Close() error {
+	if s.first && (s.hsMin > 0 || s.hsMax > 0) {
+		return nil
+	}
+	return s.Conn.Close()
 }
 
 func (s *c04SegConn) flush() error {
@@ -247,7 +269,7 @@ func c04RunPipe(w *c34World, reg *c34Reg, j *c04Job, app []byte) (*c04Result, er
 	conn := newC34Real(b, c34Peer(50123))
 	run, done := w.start(conn, reg.phantom, "ok")
 	_ = a.SetDeadline(time.Now().Add(20 * time.Second))
-	seg := &c04SegConn{Conn: a, cuts: j.cuts, natural: j.natural, delay: time.Duration(j.delayUs) * time.Microsecond}
+	seg := &c04SegConn{Conn: a, cuts: j.cuts, natural: j.natural, delay: time.Duration(j.delayUs) * time.Microsecond, hsMin: j.hsMin, hsMax: j.hsMax}
 	obfs := reg.tt == pb.TransportType_Obfs4
 	if obfs {
 		seg.first = true
@@ -260,6 +282,9 @@ func c04RunPipe(w *c34World, reg *c34Reg, j *c04Job, app []byte) (*c04Result, er
 		defer cwg.Done()
 		defer a.Close()
 		wrapped, err := ct.WrapConn(seg)
+		for try := 0; err != nil && errors.Is(err, errC04HsLen) && try < 200000; try++ {
+			wrapped, err = ct.WrapConn(seg) // nothing was sent: draw another handshake
+		}
 		if err != nil {
 			res.clientErr = "wrap: " + c34ErrKind(err)
 			return
@@ -613,6 +638,17 @@ func TestVerifC04(t *testing.T) {
 			emit(c04Job{client: ci, mode: "pipe", early: []int{0, 13, 1000}[r.Intn(3)], cuts: []int{c}})
 		}
 	}
+	// the extremes of the obfs4 handshake length (the client pads to anything up to 8192 bytes; the
+	// longest and shortest handshakes are each a fraction of a percent of real connections)
+	for k, ci := range obfsC {
+		if !thorough && k > 1 {
+			break
+		}
+		for _, rng := range [][2]int{{8161, 0}, {8185, 0}, {0, 160}, {0, 145}} {
+			emit(c04Job{client: ci, mode: "pipe", early: []int{0, 13}[r.Intn(2)], hsMin: rng[0], hsMax: rng[1]})
+			emit(c04Job{client: ci, mode: "pipe", early: 100, hsMin: rng[0], hsMax: rng[1], cuts: []int{r.Range(1, 140), -r.Range(1, 40)}})
+		}
+	}
 	no := vlib.Budget(120, 20000)
 	for i := 0; i < no; i++ {
 		ci := obfsC[r.Intn(len(obfsC))]
@@ -675,6 +711,8 @@ func c04Replay(t *testing.T, out *vlib.Out, path string, restore func()) {
 		j.early, _ = strconv.Atoi(m["early"])
 		j.delayUs, _ = strconv.Atoi(m["delay"])
 		j.seed, _ = strconv.ParseUint(m["dseed"], 10, 64)
+		j.hsMin, _ = strconv.Atoi(m["hsmin"])
+		j.hsMax, _ = strconv.Atoi(m["hsmax"])
 		j.world, _ = strconv.Atoi(m["world"])
 		if j.client >= len(clientsOf[key]) {
 			t.Fatalf("replay: client %d out of range", j.client)
